@@ -30,12 +30,14 @@ def expected_obj(exp, by_dt="<i8"):
         arr = np.array([int(x) for x in labs], dtype=np.int64)
     elif by_dt == "U":
         arr = np.array(labs, dtype=str)
+    elif "M8" in by_dt or "m8" in by_dt:
+        arr = np.array([int(x) for x in labs], dtype=np.int64).view(by_dt)
     elif "f" in by_dt:
         arr = np.array(labs, dtype=np.float64)
     else:
         arr = np.array(labs, dtype=np.int64)
     if how == "list":
-        return list(arr.tolist())
+        return list(arr) if arr.dtype.kind in "Mm" else list(arr.tolist())
     if how == "index":
         return pd.Index(arr)
     return arr
@@ -142,6 +144,18 @@ def chunked_reduce(arr, bys, kw, plan, engine=None, compute=True) -> Res:
     return run(go)
 
 
+def relayout(a, layout):
+    """same values, different memory layout: Fortran order or a strided view into a larger buffer"""
+    if layout == "F" and a.ndim >= 2:
+        return np.asfortranarray(a)
+    if layout == "strided" and a.ndim >= 1 and a.shape[-1] > 0:
+        big = np.empty(a.shape[:-1] + (a.shape[-1] * 2,), dtype=a.dtype)
+        big[..., ::2] = a
+        big[..., 1::2] = a[..., ::-1] if a.dtype.kind not in "US" else a
+        return big[..., ::2]
+    return a
+
+
 def arrays_of(case):
     arr = dec(case["arr"])
     by = case["by"]
@@ -151,5 +165,5 @@ def arrays_of(case):
 
 __all__ = [
     "Res", "arrays_of", "chunked_reduce", "eager_reduce", "expected_obj", "fill_obj",
-    "plan_kwargs", "reduce_kwargs", "to_dask",
+    "plan_kwargs", "reduce_kwargs", "relayout", "to_dask",
 ]  # fmt: skip
